@@ -175,8 +175,10 @@ def qr(A, q0, q1):
     # keep track of intermediate dimension
     D = 0
 
-    Q = np.zeros((A.shape[0], max_interm_dim), dtype=A.dtype)
-    R = np.zeros((max_interm_dim, A.shape[1]), dtype=A.dtype)
+    # the factors are floating-point also for integer input
+    dtype = A.dtype if np.issubdtype(A.dtype, np.inexact) else float
+    Q = np.zeros((A.shape[0], max_interm_dim), dtype=dtype)
+    R = np.zeros((max_interm_dim, A.shape[1]), dtype=dtype)
 
     # corresponding intermediate quantum numbers
     qinterm = np.zeros(max_interm_dim, dtype=q0.dtype)
